@@ -94,11 +94,24 @@ NoDanglingLabel(ast) ==
   \A i \in 1 .. Len(ast) : ast[i].k = "end" => Len(ast[i].labs) = 0
 
 (* `.end` stops the assembler: nothing after it is even looked at *)
-Effective(prog) ==
+UpToEnd(prog) ==
   IF \E i \in 1 .. Len(prog) : prog[i].k = "end"
   THEN SubSeq(prog, 1, CHOOSE i \in 1 .. Len(prog) :
                           prog[i].k = "end" /\ \A j \in 1 .. i - 1 : prog[j].k # "end")
   ELSE prog
+(* [descriptive] `.blkw` with count 0 leaves no trace in the token stream: a label written    *)
+(* before it belongs to whatever comes next (and is an error if that carries a label of its   *)
+(* own, or if nothing comes)                                                                  *)
+RECURSIVE Squash(_)
+Squash(s) ==
+  IF s = << >> THEN << >>
+  ELSE LET h == s[1] rest == Squash(Tail(s)) IN
+       IF h.k = "blkw" /\ h.c = 0
+       THEN IF h.labs = << >> THEN rest
+            ELSE IF rest = << >> THEN << [h EXCEPT !.k = "end"] >>
+            ELSE << [rest[1] EXCEPT !.labs = h.labs \o @] >> \o Tail(rest)
+       ELSE << h >> \o rest
+Effective(prog) == Squash(UpToEnd(prog))
 
 AcceptsEff(ast, stack) ==
   LET ln == Lines(ast) IN
